@@ -48,26 +48,46 @@ from harness import lexmodel as LM
 
 Driver = common.Driver      # routes `lex …` requests to the per-area executable (private copy, built before forking)
 
-CASE_BUDGET = 5.0           # seconds of wall time one implementation call may take inside a correspondence stream
+CASE_BUDGET = 5.0           # seconds of wall time one call into mako may take inside a stream
+SLOW_ABORT = 40             # after this many expired calls (all workers together) no further call into mako is made
+RUN_BUDGET = {"quick": 8 * 60.0, "thorough": 45 * 60.0}   # wall seconds for the streams of one run
+
+# shared between the main process and the forked workers
+SLOW = multiprocessing.Value("i", 0)          # number of calls that ran into the limit so far
+DEADLINE = multiprocessing.Value("d", 0.0)    # wall-clock end of the stream budget (0 = none)
 
 
-class CaseTimeout(Exception):
-    pass
+class CaseTimeout(BaseException):
+    """raised by the alarm; a BaseException so that no `except Exception` in mako or in an oracle swallows it"""
 
 
 def _alarm(signum, frame):
     raise CaseTimeout()
 
 
+def aborted():
+    """no further call into mako: too many calls ran into the limit already, or the run's budget is used up"""
+    return SLOW.value >= SLOW_ABORT or (DEADLINE.value and time.time() > DEADLINE.value)
+
+
 def timed(fn, *args, budget=None):
-    """run fn(*args) under a wall-clock limit (SIGALRM; the workers are single-threaded processes) so that a regex
-    gone exponential cannot hang the check: -> (result, None) or (None, 'timeout')"""
+    """EVERY call into mako made by this check goes through here: run fn(*args) under a wall-clock limit (SIGALRM,
+    re-armed every 0.5 s in case something swallowed it; the workers are single-threaded processes) so that a
+    regex gone exponential cannot hang the check.  -> (result, None), (None, 'timeout') when the limit expired, or
+    (None, 'skipped') when the run has been aborted (see `aborted`)."""
     import signal
+    if aborted():
+        return None, "skipped"
     old = signal.signal(signal.SIGALRM, _alarm)
-    signal.setitimer(signal.ITIMER_REAL, budget or CASE_BUDGET)
+    signal.setitimer(signal.ITIMER_REAL, budget or CASE_BUDGET, 0.5)
     try:
-        return fn(*args), None
+        try:
+            return fn(*args), None
+        finally:
+            signal.setitimer(signal.ITIMER_REAL, 0)
     except CaseTimeout:
+        with SLOW.get_lock():
+            SLOW.value += 1
         return None, "timeout"
     finally:
         signal.setitimer(signal.ITIMER_REAL, 0)
@@ -413,8 +433,10 @@ def paths_oracle(oracle, src, want, tmp, enc):
     src2, want2 = transcode(src, enc), transcode(want, enc)
     for path in PATHS:
         r, to = timed(oracle, src2, want2, path_renderer(path, enc, tmp))
+        if to == "skipped":
+            break
         if to:
-            r = ("lexer-does-not-finish", "did not finish")
+            r = ("lexer-does-not-finish", "did not finish within %.0f s" % CASE_BUDGET)
         if r:
             site = r[0]
             if site in ("render-differs", "document-output-differs", "inert-input-rejected", "well-formed-document-rejected",
@@ -591,6 +613,10 @@ def check_batch(strs, opts):
             continue
         res["cases"] += 1
         impl, to = timed(LM.impl_lex, s)
+        if to == "skipped":
+            b("skipped-after-abort")
+            res["skipped"] = True
+            break
         if to:
             n_timeouts += 1
             site = timeout_site(s)
@@ -638,6 +664,10 @@ def check_batch(strs, opts):
             name, ps = PREPROCESSORS[1 + (len(s) + sum(map(ord, s))) % (len(PREPROCESSORS) - 1)]
             res["render_cases"] += 1
             r_, to = timed(preprocessor_oracle, s, name, ps, None, True)
+            if to == "timeout":
+                n_timeouts += 1
+                r_ = [("lexer-does-not-finish", "Lexer(src, preprocessor=%s).parse() / Lexer(p(src)).parse() did not finish "
+                       "within %.0f s" % (name, CASE_BUDGET), "lexer")]
             for site, detail, route in (r_ or []):
                 b("oracle:" + site)
                 if len(res["violations"]) < 20:
@@ -654,7 +684,8 @@ def check_batch(strs, opts):
         if opts.get("render") and inert(s):
             res["render_cases"] += 1
             r, to = timed(render_oracle_inert, s)
-            if to:
+            if to == "timeout":
+                n_timeouts += 1
                 r = ("lexer-does-not-finish", "Template(s).render_unicode() did not finish in %.0f s" % CASE_BUDGET)
             if r:
                 b("oracle:" + r[0])
@@ -674,7 +705,15 @@ def with_tmp(fn):
         shutil.rmtree(tmp, ignore_errors=True)
 
 
+def skipped_result():
+    """what a worker task answers once the run has been aborted (see `aborted`)"""
+    return {"cases": 0, "branches": {"task-skipped-after-abort": 1}, "disagreements": [], "violations": [],
+            "n_disagreements": 0, "skipped": True}
+
+
 def task_exhaustive(args):
+    if aborted():
+        return skipped_result()
     prefix, rest_len, stride, phase, opts = args
     strs = []
     i = 0
@@ -689,6 +728,8 @@ def task_exhaustive(args):
 
 
 def task_strings(args):
+    if aborted():
+        return skipped_result()
     strs, opts = args
     return check_batch(strs, opts)
 
@@ -796,6 +837,8 @@ def compare_matcher(impl, model, depth0, adjust):
 
 
 def task_matcher(args):
+    if aborted():
+        return skipped_result()
     name, head, first, rest_len, tags, ctls = args
     alphabet = MATCHER_SPECS[name][0]
     method = MATCHER_METHOD.get(name, name)
@@ -816,6 +859,9 @@ def task_matcher(args):
             continue
         res["cases"] += 1
         impl, to = timed(impl_matcher, method, s, p, tags, ctls)
+        if to == "skipped":
+            res["skipped"] = True
+            break
         if to:
             n_timeouts += 1
             res["branches"]["m:%s:timeout" % name] = res["branches"].get("m:%s:timeout" % name, 0) + 1
@@ -854,6 +900,8 @@ CODING_ALPHA = ["#", "coding", ":", "=", " ", "\n", "\r", "a", "-", "\u00e9"]
 
 
 def task_until(args):
+    if aborted():
+        return skipped_result()
     which, first, rest_len = args
     from mako import exceptions
     from mako.lexer import Lexer
@@ -873,6 +921,9 @@ def task_until(args):
         lx.lineno = 1 + s.count("\n", 0, p)
         try:
             r_, to = timed(lx.parse_until_text, watch, *terms)
+            if to == "skipped":
+                res["skipped"] = True
+                break
             if to:
                 res["branches"]["until:timeout"] = res["branches"].get("until:timeout", 0) + 1
                 if len(res["violations"]) < 5:
@@ -898,7 +949,7 @@ def _string_regex():
     import mako.lexer as L
     lx = L.Lexer('"x"}')
     lx.textlength = 4
-    lx.parse_until_text(True, r"}")
+    timed(lx.parse_until_text, True, r"}")
     for (pat, flags), reg in L._regexp_cache.items():
         if pat.startswith("(\\\"\\\"\\\"|"):
             return reg
@@ -906,6 +957,8 @@ def _string_regex():
 
 
 def task_string(args):
+    if aborted():
+        return skipped_result()
     first, rest_len = args
     reg = _string_regex()
     res = {"cases": 0, "branches": {}, "disagreements": [], "violations": [], "n_disagreements": 0}
@@ -916,7 +969,14 @@ def task_string(args):
     outs = Driver().ask_many(["lex string %s 0" % enc(s) for s in cases])
     for s, o in zip(cases, outs):
         res["cases"] += 1
-        m = reg.match(s)
+        m, to = timed(reg.match, s)
+        if to:
+            if to == "timeout" and len(res["violations"]) < 5:
+                res["violations"].append(("lexer-does-not-finish", s, "the string-literal regex did not finish", "oracle.timeout"))
+            if to == "skipped":
+                res["skipped"] = True
+                break
+            continue
         want = str(m.end()) if m else "none"
         k = "string:" + ("match" if m else "none")
         res["branches"][k] = res["branches"].get(k, 0) + 1
@@ -928,6 +988,8 @@ def task_string(args):
 
 
 def task_coding(args):
+    if aborted():
+        return skipped_result()
     first, rest_len = args
     from mako.lexer import Lexer
     reg = Lexer._coding_re
@@ -936,7 +998,14 @@ def task_coding(args):
     outs = Driver().ask_many(["lex coding %s" % enc(s) for s in cases])
     for s, o in zip(cases, outs):
         res["cases"] += 1
-        m = reg.match(s)
+        m, to = timed(reg.match, s)
+        if to:
+            if to == "timeout" and len(res["violations"]) < 5:
+                res["violations"].append(("lexer-does-not-finish", s, "the coding-comment regex did not finish", "oracle.timeout"))
+            if to == "skipped":
+                res["skipped"] = True
+                break
+            continue
         want = str(m.end()) if m else "none"
         k = "coding:" + ("match" if m else "none")
         res["branches"][k] = res["branches"].get(k, 0) + 1
@@ -1232,7 +1301,7 @@ def canonical_oracle():
     bad = []
     for src, want in CANONICAL:
         r, to = timed(doc_oracle, src, want)
-        if to:
+        if to == "timeout":
             r = ("lexer-does-not-finish", "rendering did not finish in %.0f s" % CASE_BUDGET)
         if r:
             bad.append((r[0], src, r[1]))
@@ -1265,6 +1334,8 @@ def canonical_preprocessor_oracle():
         for src, want in CANONICAL:
             for name, ps in PREPROCESSORS:
                 r_, to = timed(preprocessor_oracle, src, name, ps, tmp)
+                if to == "timeout":
+                    r_ = [("lexer-does-not-finish", "preprocessor %s: did not finish within %.0f s" % (name, CASE_BUDGET), "any")]
                 for site, detail, route in (r_ or []):
                     bad.append((site, {"input": src, "preprocessor": name, "route": route}, detail))
     with_tmp(run)
@@ -1272,6 +1343,8 @@ def canonical_preprocessor_oracle():
 
 
 def task_documents(args):
+    if aborted():
+        return skipped_result()
     seed, n, empty_text = args
     import random
     rng = random.Random(seed)
@@ -1286,6 +1359,8 @@ def task_documents(args):
         res["branches"][k] = res["branches"].get(k, 0) + v
     def paths(tmp):
         for i, d in enumerate(docs):
+            if aborted():
+                break
             enc = ENCODINGS[i % len(ENCODINGS)]
             res["render_cases"] += len(PATHS)
             res["branches"]["paths:document:" + enc] = res["branches"].get("paths:document:" + enc, 0) + 1
@@ -1302,6 +1377,10 @@ def task_documents(args):
             res["render_cases"] += 4
             res["branches"]["preprocessor:document:" + name] = res["branches"].get("preprocessor:document:" + name, 0) + 1
             r_, to = timed(preprocessor_oracle, d.s(), name, ps, tmp)
+            if to == "skipped":
+                break
+            if to == "timeout":
+                r_ = [("lexer-does-not-finish", "preprocessor %s: did not finish within %.0f s" % (name, CASE_BUDGET), "any")]
             for site, detail, route in (r_ or []):
                 res["branches"]["oracle:" + site] = res["branches"].get("oracle:" + site, 0) + 1
                 if len(res["violations"]) < 20:
@@ -1334,6 +1413,8 @@ def task_documents(args):
         res["render_cases"] += 1
         src = d.s()
         r, to = timed(doc_oracle, src, "".join(d.out))
+        if to == "skipped":
+            break
         if to:
             r = ("lexer-does-not-finish", "rendering a well-formed document did not finish in %.0f s" % CASE_BUDGET)
         if r:
@@ -1350,6 +1431,8 @@ SOUP = ALPHA + ["<%if", "% if x:\n", "% endif\n", "% else:\n", "% for i in y:\n"
 
 
 def task_malformed(args):
+    if aborted():
+        return skipped_result()
     seed, n = args
     import random
     rng = random.Random(seed)
@@ -1534,8 +1617,13 @@ def judge_family(r, budget):
 # --------------------------------------------------------------------------------------------------
 # main-process side
 
+SKIPPED = set()
+
+
 def merge(ctx, stream, kind, r, oracle_stream_cases=True):
     st = ctx.stream(stream, kind)
+    if r.get("skipped"):
+        SKIPPED.add(stream)
     if r.get("driver_failed") and not any(b_["what"] == "correspondence:driver" for b_ in ctx.broken):
         ctx.broke("correspondence:driver", r["driver_failed"])
     st["cases"] += r["cases"]
@@ -1570,7 +1658,7 @@ def shrink_violation(site, case, ostream):
     def parse(x):
         r_, to = timed(lambda: Lexer(x).parse(), budget=0.5)
         if to:
-            raise CaseTimeout()
+            raise RuntimeError("time limit")
         return r_
 
     def fails(x):
@@ -1656,6 +1744,9 @@ def classes(ctx, drv):
 
 def run(ctx):
     del VIOL[:]
+    SKIPPED.clear()
+    SLOW.value = 0
+    DEADLINE.value = time.time() + RUN_BUDGET[ctx.tier]
     repo = os.environ.get("MAKO_REPO", "/repo")
     pool = multiprocessing.get_context("fork").Pool(NPROC)
     t0 = time.time()
@@ -1802,7 +1893,17 @@ def run(ctx):
                     ctx.violation(site, {"input": fam(min(n_w, 40)), "family": r["name"], "n": n_w,
                                          "note": "timing test (CPU time of Lexer(s).parse() in a subprocess)"},
                                   verdict, "oracle.timing")
+            if SLOW.value:
+                ctx.branch("calls-that-ran-into-the-time-limit", SLOW.value)
+            if SKIPPED:
+                why = ("%d calls into mako ran into the %.0f s limit" % (SLOW.value, CASE_BUDGET) if SLOW.value >= SLOW_ABORT
+                       else "the run's stream budget of %.0f s was used up" % RUN_BUDGET[ctx.tier])
+                ctx.broke("streams-cut-short", "%s; not completed: %s" % (why, ", ".join(sorted(SKIPPED))))
+            DEADLINE.value = time.time() + 120.0      # shrinking and replays of the reported cases
+            slow_before = SLOW.value
+            SLOW.value = 0
             report_violations(ctx)
+            SLOW.value += slow_before
             ctx.log("oracles done (%.1fs): %d violations reported" % (time.time() - t0, len(ctx.violations)))
     finally:
         pool.terminate()
@@ -1833,9 +1934,14 @@ def replay(ctx, data):
     s = case["input"] if isinstance(case, dict) else case
     if not isinstance(s, str):
         return False
+    SLOW.value = 0
+    DEADLINE.value = 0.0
     if isinstance(case, dict) and "preprocessor" in case:
         ps = dict(PREPROCESSORS)[case["preprocessor"]]
-        bad = with_tmp(lambda tmp: preprocessor_oracle(s, case["preprocessor"], ps, tmp))
+        bad, to = with_tmp(lambda tmp: timed(preprocessor_oracle, s, case["preprocessor"], ps, tmp))
+        if to:
+            print("did not finish within %.0f s" % CASE_BUDGET)
+            return False
         print("p(src) =", repr(apply_pps(ps, s))[:300])
         for site, detail, route in bad:
             print("oracle:", site, "|", detail[:400])
@@ -1843,11 +1949,14 @@ def replay(ctx, data):
     if isinstance(case, dict) and "path" in case:
         # a construction-path case: the path's output against the output of the plain string Template
         def run(tmp):
-            ref = render(s, x="X")
+            ref, to1 = timed(lambda: render(s, x="X"))
             try:
-                got = path_renderer(case["path"], case["encoding"], tmp)(s, x="X")
+                got, to2 = timed(lambda: path_renderer(case["path"], case["encoding"], tmp)(s, x="X"))
             except Exception as e:
-                got = "<%s: %s>" % (type(e).__name__, str(e)[:100])
+                got, to2 = "<%s: %s>" % (type(e).__name__, str(e)[:100]), None
+            if to1 or to2:
+                print("did not finish within %.0f s" % CASE_BUDGET)
+                return False
             print("Template(string)           :", repr(ref)[:200])
             print("path %-22s:" % case["path"], repr(got)[:200], "(encoding %s)" % case["encoding"])
             return got == ref
